@@ -71,6 +71,7 @@ class Registry:
         self.fields = {}  # field name or (cls, field) -> Ty
         self.lemmas = []  # (name, props, fn() -> (hyps, goal))
         self.units = []  # contracts to verify, in registration order
+        self.static_dispatch = set()  # classes whose non-overridden concrete methods are dispatched statically on interface refs
         self.closed_classes = set()  # finam classes assumed to have no user subclasses (static dispatch)
 
     def add(self, c):
